@@ -4,7 +4,7 @@
      Barrier            a collective on the world communicator: no rank leaves barrier number j before
                         every rank has reached it
      Phase tag dests    every rank r first posts one non-blocking send to each element of `dests r`
-                        (duplicates allowed), then performs exactly
+                        (duplicates allowed; in any order: the move carries the order), then performs exactly
                           expected r = #{(s, occurrence of r in dests s) | s < P}
                         wildcard receives (MPI_ANY_SOURCE) restricted to the phase's tag, then moves on.
    This is the shape of raptor's package constructions: an Allreduce/Barrier tells each rank how many
@@ -18,7 +18,7 @@
    The semantics is executable: `exec_step P prog st a` performs action `a` (or returns None when `a` is
    not enabled); `step` is "some action is enabled and leads there", so every interleaving / every delay of
    every rank is an execution.  No proofs in this file (it is extracted). *)
-From Coq Require Import List Arith Bool.
+From Coq Require Import List Arith Bool Permutation.
 Import ListNotations.
 
 Inductive item : Type :=
@@ -76,9 +76,23 @@ Fixpoint remove_nth {A : Type} (k : nat) (l : list A) : list A :=
   | y :: l', S k' => y :: remove_nth k' l'
   end.
 
+Fixpoint remove_one (x : nat) (l : list nat) : option (list nat) :=
+  match l with
+  | [] => None
+  | y :: l' => if x =? y then Some l'
+               else match remove_one x l' with Some l'' => Some (y :: l'') | None => None end
+  end.
+
+(* multiset equality of two lists of ranks *)
+Fixpoint perm_b (l1 l2 : list nat) : bool :=
+  match l1 with
+  | [] => match l2 with [] => true | _ => false end
+  | x :: l1' => match remove_one x l2 with Some l2' => perm_b l1' l2' | None => false end
+  end.
+
 (* ---- moves ---- *)
 Inductive action : Type :=
-| ASend (r : nat)          (* rank r posts all sends of its current phase *)
+| ASend (r : nat) (ds : list nat)   (* rank r posts all sends of its current phase, in the order ds *)
 | ARecv (r k : nat)        (* rank r's wildcard receive takes the k-th in-flight message *)
 | AAdv (r : nat)           (* rank r has all its messages and moves to the next item *)
 | ABar (r : nat).          (* rank r leaves the barrier *)
@@ -88,15 +102,15 @@ Definition send_msgs (r t j : nat) (ds : list nat) : list msg := map (fun dst =>
 
 Definition exec_step (P : nat) (prog : program) (st : state) (a : action) : option state :=
   match a with
-  | ASend r =>
+  | ASend r ds =>
       match nth_error (ranks st) r with
       | Some rs =>
           match nth_error prog (pc rs) with
           | Some (Phase t d) =>
-              if sent rs then None else
+              if sent rs || negb (perm_b ds (d r)) then None else
               Some (mkS (upd (ranks st) r
-                           (mkR (pc rs) true (nrecv rs) (rlog rs) (rev (send_events t (d r)) ++ revs rs)))
-                        (net st ++ send_msgs r t (pc rs) (d r)))
+                           (mkR (pc rs) true (nrecv rs) (rlog rs) (rev (send_events t ds) ++ revs rs)))
+                        (net st ++ send_msgs r t (pc rs) ds))
           | _ => None
           end
       | None => None
@@ -239,34 +253,25 @@ Fixpoint take_sends (n t : nat) (evs : list event) : option (list nat * list eve
       end
   end.
 
-(* n wildcard receives with tag t from sources inside the world *)
-Fixpoint take_recvs (P n t : nat) (evs : list event) : option (list event) :=
+(* n wildcard receives with tag t: returns the sources they matched and the rest *)
+Fixpoint take_recvs (n t : nat) (evs : list event) : option (list nat * list event) :=
   match n with
-  | 0 => Some evs
+  | 0 => Some ([], evs)
   | S n' =>
       match evs with
-      | EvRecvAny src t' :: e => if (t' =? t) && (src <? P) then take_recvs P n' t e else None
+      | EvRecvAny src t' :: e =>
+          if t' =? t then
+            match take_recvs n' t e with Some (ss, e') => Some (src :: ss, e') | None => None end
+          else None
       | _ => None
       end
   end.
 
-Fixpoint remove_one (x : nat) (l : list nat) : option (list nat) :=
-  match l with
-  | [] => None
-  | y :: l' => if x =? y then Some l'
-               else match remove_one x l' with Some l'' => Some (y :: l'') | None => None end
-  end.
-
-(* multiset equality of two lists of ranks *)
-Fixpoint perm_b (l1 l2 : list nat) : bool :=
-  match l1 with
-  | [] => match l2 with [] => true | _ => false end
-  | x :: l1' => match remove_one x l2 with Some l2' => perm_b l1' l2' | None => false end
-  end.
-
 (* `trace_ok P prog r evs`: the observed event log of rank r is a possible complete run of the program:
    same sequence of items; per phase first the sends, to exactly `dests r` as a multiset, all with the
-   phase's tag; then exactly `expected r` wildcard receives with the phase's tag *)
+   phase's tag; then exactly `expected r` wildcard receives with the phase's tag, whose matched sources are
+   exactly (as a multiset) the ranks that address r in this phase - a message taken from another phase
+   shows up here as a wrong source *)
 Fixpoint trace_ok (P : nat) (prog : program) (r : nat) (evs : list event) : bool :=
   match prog with
   | [] => match evs with [] => true | _ => false end
@@ -275,14 +280,25 @@ Fixpoint trace_ok (P : nat) (prog : program) (r : nat) (evs : list event) : bool
       match take_sends (length (d r)) t evs with
       | Some (ds, e1) =>
           if perm_b ds (d r) then
-            match take_recvs P (expected P d r) t e1 with
-            | Some e2 => trace_ok P p r e2
+            match take_recvs (expected P d r) t e1 with
+            | Some (ss, e2) => if perm_b ss (senders P d r) then trace_ok P p r e2 else false
             | None => false
             end
           else false
       | None => false
       end
   end.
+
+(* what `trace_ok` means (NetProofs.trace_ok_iff): the log is the concatenation, item by item, of
+   [EvBarrier] for a barrier and, for a phase, sends with the phase's tag to a permutation of `dests r`
+   followed by wildcard receives with the phase's tag whose sources are a permutation of `senders` *)
+Inductive trace_spec (P r : nat) : program -> list event -> Prop :=
+| TS_nil : trace_spec P r [] []
+| TS_bar : forall p e, trace_spec P r p e -> trace_spec P r (Barrier :: p) (EvBarrier :: e)
+| TS_phase : forall t d p ds ss e,
+    Permutation ds (d r) -> Permutation ss (senders P d r) -> trace_spec P r p e ->
+    trace_spec P r (Phase t d :: p)
+               (send_events t ds ++ map (fun s => EvRecvAny s t) ss ++ e).
 
 (* ---- examples (T3) ---- *)
 (* three ranks; phase A: 0 -> 2; phase B: 1 -> 2; both with tag 7 *)
@@ -293,4 +309,4 @@ Definition prog_bad : program := [Phase 7 dA; Phase 7 dB].
 
 (* rank 0 is delayed; rank 1 runs through phase A (nothing to do) and posts its phase-B send; rank 2, still in
    phase A, takes it *)
-Definition bad_schedule : list action := [ASend 1; AAdv 1; ASend 1; ASend 2; ARecv 2 0].
+Definition bad_schedule : list action := [ASend 1 []; AAdv 1; ASend 1 [2]; ASend 2 []; ARecv 2 0].
